@@ -850,13 +850,29 @@ Proof.
   - apply K_set_out. destruct (e_out (sA s)); [exact HB|apply K_set_d; exact HB].
 Qed.
 
+Lemma K_disp_burst : forall fuel e e', K e -> disp_burst fuel e = Some e' -> K e'.
+Proof.
+  induction fuel as [|fuel IH]; intros e e' HK H; cbn [disp_burst] in H; [discriminate|].
+  destruct (dstep _ _ _ _) as [|d|d k i f|d code].
+  - discriminate.
+  - apply (IH (set_d e d) e'); [apply K_set_d; exact HK|exact H].
+  - apply (IH (deliver (set_d e d) k i f) e'); [apply K_deliver, K_set_d; exact HK|exact H].
+  - inversion H; subst e'. apply K_set_fail, K_set_d, HK.
+Qed.
+
+Lemma K_raw_round : forall e, K e -> K (fst (raw_round e)).
+Proof.
+  intros e HK. unfold raw_round. destruct (e_fail e); [apply K_ep_round; exact HK|].
+  destruct (disp_burst (burst_fuel e) e) as [e'|] eqn:E; [cbn [fst]; eapply K_disp_burst; eassumption|apply K_ep_round; exact HK].
+Qed.
+
 Lemma KS_settle_round : forall s, KS s -> KS (fst (settle_round s)).
 Proof.
   intros s HS. unfold settle_round. pose proof (KS_transfer s HS) as [HA HB]. set (s1 := transfer s) in *.
-  pose proof (K_ep_round (sA s1) HA) as PA. pose proof (K_ep_round (sB s1) HB) as PB.
-  destruct (ep_round (sB s1)) as [b pb]. destruct (s_raw s1).
-  - cbn [fst]. split; cbn [sA sB]; assumption.
-  - destruct (ep_round (sA s1)) as [a pa]. cbn [fst]. split; cbn [sA sB]; assumption.
+  pose proof (K_ep_round (sA s1) HA) as PA. pose proof (K_ep_round (sB s1) HB) as PB. pose proof (K_raw_round (sB s1) HB) as PR.
+  destruct (s_raw s1).
+  - destruct (raw_round (sB s1)) as [b pb]. cbn [fst]. split; cbn [sA sB]; assumption.
+  - destruct (ep_round (sB s1)) as [b pb]. destruct (ep_round (sA s1)) as [a pa]. cbn [fst]. split; cbn [sA sB]; assumption.
 Qed.
 
 Lemma KS_iter_until : forall p s, KS s -> KS (fst (iter_until p s)).
